@@ -21,9 +21,14 @@ use std::time::{Duration, Instant};
 
 pub const STACK: usize = 8 << 20;
 
-pub const TEXT_SHAPES: [&str; 9] = [
-    "seq", "expkey", "alt", "mapnl", "seq-then-flow", "flowseq", "flowseq-closed", "flowmap", "flowmix",
+pub const TEXT_SHAPES: [&str; 10] = [
+    "seq", "expkey", "alt", "mapnl", "seq-then-flow", "seq-dedent", "flowseq", "flowseq-closed", "flowmap", "flowmix",
 ];
+/// The pull interface keeps its continuation on the heap, so its stack use must not depend on
+/// the nesting depth at all: these API variants run the same scenario on a *small* stack
+/// (suffix `@<n>k`), which turns "stack consumption grows with depth" into an observable crash
+/// long before 8 MiB would overflow, whatever the frame size of the build profile.
+pub const SMALL_STACK_APIS: [&str; 2] = ["iter@256k", "peeknext@256k"];
 pub const TREE_SHAPES: [&str; 3] = ["tree-seq", "tree-mapval", "tree-mapkey"];
 pub const TEXT_APIS: [&str; 7] = [
     "iter", "peeknext", "load", "lfs:Yaml", "lfs:YamlOwned", "lfs:MarkedYaml", "lfs:MarkedYamlOwned",
@@ -31,15 +36,60 @@ pub const TEXT_APIS: [&str; 7] = [
 pub const TREE_APIS: [&str; 5] = ["drop", "clone", "eq", "hash", "emit"];
 
 pub fn shape_class(shape: &str) -> &'static str {
+    if shape.starts_with("randnest:") {
+        return "block";
+    }
     match shape {
-        "seq" | "expkey" | "alt" | "mapnl" | "seq-then-flow" => "block",
+        "seq" | "expkey" | "alt" | "mapnl" | "seq-then-flow" | "seq-dedent" => "block",
         "flowseq" | "flowseq-closed" | "flowmap" | "flowmix" => "flow",
         _ => "tree",
     }
 }
 
+/// A seeded deep block nest: a one-line nest of `- ` / `? ` openers drawn per level, followed
+/// by a few continuation lines that re-enter the nest as siblings at drawn levels (each closes
+/// some levels while the others stay open), optionally ending inside a flow collection.
+fn rand_nest(seed: u64, d: usize) -> String {
+    let mut r = SplitMix64::new(seed ^ 0xC11C_11C1);
+    let mut s = String::with_capacity(4 * d + 64);
+    let mut kinds = Vec::with_capacity(d);
+    let run = 1 + r.usize(8);
+    let mut cur = r.chance(1, 2);
+    for k in 0..d {
+        if k % run == 0 {
+            cur = r.chance(1, 2);
+        }
+        kinds.push(cur);
+        s.push_str(if cur { "- " } else { "? " });
+    }
+    s.push_str(*r.pick(&["a", "&x a", "[a, b]", "{a: b}", "!!str a", "|\n"]));
+    s.push('\n');
+    let lines = 1 + r.usize(4);
+    let mut level = d;
+    for _ in 0..lines {
+        if level < 2 {
+            break;
+        }
+        // re-enter as a sibling at a drawn level: deep (near the bottom), middle, or shallow
+        level = match r.below(3) {
+            0 => level - 1 - r.usize(level.min(3)),
+            1 => level / 2,
+            _ => r.usize(level.min(4)),
+        };
+        for _ in 0..2 * level {
+            s.push(' ');
+        }
+        s.push_str(if kinds.get(level).copied().unwrap_or(true) { "- b" } else { "? b" });
+        s.push('\n');
+    }
+    s
+}
+
 pub fn text_for(shape: &str, d: usize) -> String {
     let mut s = String::new();
+    if let Some(seed) = shape.strip_prefix("randnest:") {
+        return rand_nest(seed.parse().unwrap_or(0), d);
+    }
     match shape {
         "seq" => {
             for _ in 0..d {
@@ -71,6 +121,18 @@ pub fn text_for(shape: &str, d: usize) -> String {
                 s.push(' ');
             }
             s.push_str("v\n");
+        }
+        "seq-dedent" => {
+            // a deep one-line nest, then a sibling entry deep inside it: one level closes while
+            // about d levels stay open across the dedent
+            for _ in 0..d {
+                s.push_str("- ");
+            }
+            s.push_str("a\n");
+            for _ in 0..2 * d.saturating_sub(2) {
+                s.push(' ');
+            }
+            s.push_str("- b\n");
         }
         "seq-then-flow" => {
             for _ in 0..d {
@@ -261,9 +323,19 @@ fn scenario(shape: &str, depth: usize, api: &str) -> String {
 }
 
 /// Child process entry: run one scenario on a thread with the 8 MiB stack the property names.
+/// Split `api@<n>k` into the API proper and the stack size it asks for.
+pub fn api_and_stack(api: &str) -> (&str, usize) {
+    match api.split_once('@') {
+        Some((a, k)) => (a, k.trim_end_matches('k').parse::<usize>().map_or(STACK, |n| n << 10)),
+        None => (api, STACK),
+    }
+}
+
 pub fn child(shape: &str, depth: usize, api: &str) -> i32 {
+    let (api, stack) = api_and_stack(api);
     let (shape, api) = (shape.to_string(), api.to_string());
-    let h = std::thread::Builder::new().stack_size(STACK).spawn(move || scenario(&shape, depth, &api));
+    // the text is rendered on the main thread so that only the library runs on the measured stack
+    let h = std::thread::Builder::new().stack_size(stack).spawn(move || scenario(&shape, depth, &api));
     match h.map(std::thread::JoinHandle::join) {
         Ok(Ok(s)) => {
             let line: String = s.chars().take(300).collect();
@@ -431,9 +503,36 @@ fn grid(cfg: &Config) -> Vec<Scn> {
             }
         }
     }
+    // seeded nests with dedents: every pull API on the small stack, one loader
+    let n_rand = if thorough { 24 } else { 6 };
+    for k in 0..n_rand {
+        let shape = format!("randnest:{}", r.below(1_000_000));
+        let d = if k % 3 == 2 { 1_000_000 - r.usize(200_000) } else { 100_000 - r.usize(20_000) };
+        for api in SMALL_STACK_APIS {
+            v.push(Scn { shape: shape.clone(), depth: d, api: api.into() });
+        }
+        v.push(Scn { shape: shape.clone(), depth: d.min(100_000), api: "load".into() });
+    }
     for shape in TREE_SHAPES {
         for api in TREE_APIS {
             for d in depths_for(&mut r) {
+                v.push(Scn { shape: shape.into(), depth: d, api: api.into() });
+            }
+        }
+    }
+    // pull interface on a small stack, also at depth 10^6 where the text stays linear in size
+    for shape in TEXT_SHAPES {
+        for api in SMALL_STACK_APIS {
+            let mut ds = vec![100_000usize - r.usize(10_000)];
+            let linear = !matches!(shape, "mapnl");
+            if linear && (thorough || matches!(shape, "seq" | "expkey" | "seq-dedent" | "flowmap")) {
+                ds.push(1_000_000 - r.usize(100_000));
+            }
+            if thorough {
+                ds.push(1000);
+                ds.push(10_000);
+            }
+            for d in ds {
                 v.push(Scn { shape: shape.into(), depth: d, api: api.into() });
             }
         }
